@@ -450,7 +450,7 @@ func (vc *VC) parseGhostStmts() {
 	}
 }
 
-func (vc *VC) runGhost(st *State, anchor, callee string, ord int) {
+func (vc *VC) runGhost(st *State, anchor, callee string, ord int, callRes ...Val) {
 	if st.fr == nil || st.fr.fn != vc.fn {
 		// anchors refer to the function under contract only
 		if !(anchor == "after call" && st.fr != nil && st.fr.fn == vc.fn) {
@@ -467,7 +467,7 @@ func (vc *VC) runGhost(st *State, anchor, callee string, ord int) {
 		if g.ord != 0 && g.ord != ord {
 			continue
 		}
-		vc.execGhost(st, g)
+		vc.execGhost(st, g, callRes...)
 	}
 }
 
@@ -493,9 +493,21 @@ func (vc *VC) runGhostStore(st *State, p PtrV) {
 	}
 }
 
-func (vc *VC) execGhost(st *State, g *ghostStmt) {
+func (vc *VC) execGhost(st *State, g *ghostStmt, callRes ...Val) {
 	ec := st.evalCtx()
 	names := copyNames(ec.names)
+	if len(callRes) == 1 {
+		names["result"] = callRes[0]
+		names["result0"] = callRes[0]
+		if tv, ok := callRes[0].(TupleV); ok {
+			for i, e := range tv.E {
+				if i == 0 {
+					names["result"] = e
+				}
+				names[fmt.Sprintf("result%d", i)] = e
+			}
+		}
+	}
 	// "result" of the call just made, when anchored after a call
 	ec.names = names
 	cond := tTrue
